@@ -62,7 +62,9 @@ impl Record<'_> {
 
     pub(crate) fn alignment_end(&self) -> Option<Position> {
         self.alignment_start.and_then(|alignment_start| {
-            let end = usize::from(alignment_start) + self.alignment_span() - 1;
+            // A placed record that covers no reference base (e.g., an unmapped mate without bases)
+            // still occupies its start position.
+            let end = usize::from(alignment_start) + self.alignment_span().max(1) - 1;
             Position::new(end)
         })
     }
